@@ -97,4 +97,4 @@ def run(ctx):
     ctx.evaluations = sum(len(c) - 11 for c in cases)
     ctx.distinct_nontrivial = len({(t, c, s, e) for ms in metas if ms for (t, c, s, e, _, _) in ms})
     ctx.search_stats = {"cases": len(cases), "lines": ctx.evaluations, "classes": {k: len(v) for k, v in variants.items()}}
-    ctx.samples = [{"line": cases[0][11], "impl": textgen.outlines(i[0])[0]}, {"line": cases[2][12], "impl": textgen.outlines(i[2])[1]}]
+    ctx.samples = [textgen.sample(cases[0], i[0], 0), textgen.sample(cases[2], i[2], 1)]
